@@ -875,6 +875,10 @@ func genTTMLDoc(t *rapid.T, write bool) ttmlDoc {
 				if k > 0 && rapid.Bool().Draw(t, "lead") {
 					run.Text = " " + run.Text
 				}
+				// a span holding nothing but a blank (the usual way to separate two styled words)
+				if run.Span && k > 0 && k < nrn-1 && rapid.IntRange(0, 2).Draw(t, "blankspan") == 0 {
+					run.Text = " "
+				}
 				runs = append(runs, run)
 			}
 			// continuation: first run of the line may repeat the last span of the previous line (br inside a span)
